@@ -40,6 +40,13 @@ namespace sim
 
    Job make_job( const std::string& check, std::uint64_t seed, std::uint64_t index, bool thorough );
    Verdict judge( const Job& j );
+   bool job_runnable( const Job& j );  // are the sets the job needs compiled into this binary?
+   bool set_available( SetId set );
+
+   // run judge() in a forked child: 0 = no violation of `oracle`, 1 = `oracle` violated (judged in the child),
+   // 77 = the child was ended by AddressSanitizer, 99 = the child crashed (signal / abort)
+   int judge_forked( const Job& j, const std::string& oracle );
+   bool is_fatal_oracle( const std::string& oracle );  // violations that end the process: *.poison, *.crash
 
    std::string job_to_text( const Job& j );
    bool job_from_text( const std::string& text, Job& j, std::string& err );
